@@ -206,6 +206,53 @@ def incomplete_tests(body):
             if sw["otherwise"] not in others and not body.blocks[sw["otherwise"]]["t"]["k"] == "unreachable":
                 others.append(sw["otherwise"])
             out.append({"bb": sw["bb"], "true": sw["arms"]["Incomplete"], "false": others})
+        elif sw["adt"].endswith("nom::internal::Err") and "Incomplete" not in sw["arms"] and "Error" in sw["arms"] \
+                and body.blocks[sw["otherwise"]]["t"]["k"] != "unreachable":
+            # `Err(nom::Err::Error(_)) => invalid, Err(_) => read more`: the catch-all stands for Incomplete — and for Failure.
+            # That is the same classification exactly when the parser applied here cannot fail with Failure (no `cut`, no
+            # Failure value built, in anything reachable from the parser functions this body calls): a fact about *another*
+            # function, established through the call graph.
+            if "Failure" in sw["arms"] or not _failure_producers(body):
+                out.append({"bb": sw["bb"], "true": sw["otherwise"], "false": [t for v, t in sw["arms"].items()]})
+    return out
+
+
+def _failure_producers(body):
+    """functions reachable from the workspace parser functions `body` calls that can produce nom's Failure"""
+    prog = body.prog
+    cg = callgraph(prog)
+    roots = set()
+    for bb, t in body.calls():
+        f = callee(t)
+        if f is None:
+            continue
+        for tid in (f.get("inst"), f["def"]):
+            cb = prog.bodies.get(tid)
+            if cb is not None and cb.crate == body.crate and "::parser::" in norm(cb.name):
+                roots.add(cb.id)
+        for a in t["args"]:
+            c = op_const(a)
+            if c is not None and "fn" in c:
+                for tid in (c["fn"].get("inst"), c["fn"]["def"]):
+                    cb = prog.bodies.get(tid)
+                    if cb is not None and "::parser::" in norm(cb.name):
+                        roots.add(cb.id)
+    if not roots:
+        return ["<no parser function found>"]        # fail closed: nothing to establish the fact on
+    out = []
+    for bid in cg.reachable(roots):
+        cb = prog.bodies[bid]
+        for bb, t in cb.calls():
+            names = callee_names(t)
+            if any(n.endswith("nom::combinator::cut") for n in names):
+                out.append(norm(cb.name))
+            for a in t["args"]:
+                c = op_const(a)
+                if c is not None and "fn" in c and norm(c["fn"]["name"]).endswith("nom::combinator::cut"):
+                    out.append(norm(cb.name))
+        for _, _, s2 in cb.stmts():
+            if s2["k"] == "assign" and s2["rv"]["k"] == "agg" and s2["rv"].get("variant") == "Failure":
+                out.append(norm(cb.name))
     return out
 
 
